@@ -1235,8 +1235,11 @@ func TestCheck(t *testing.T) {
 
 	root := rig.TempRoot("c01")
 	defer rig.RemoveAll(root)
+	// MiB-sized payloads are copied several times per read-back; keep the collector ahead of it
+	defer debug.SetMemoryLimit(debug.SetMemoryLimit(3 << 30))
 
 	outs := make([]*outcome, len(cases))
+	t00 := time.Now()
 	par := minInt(runtime.GOMAXPROCS(0), 16)
 	var wg sync.WaitGroup
 	next := make(chan int)
@@ -1255,6 +1258,9 @@ func TestCheck(t *testing.T) {
 	}
 	for i := range cases {
 		next <- i
+		if i%500 == 499 && os.Getenv("VERIF_C01_TIMING") != "" {
+			fmt.Printf("PROGRESS dispatched %d of %d cases after %v\n", i+1, len(cases), time.Since(t00))
+		}
 	}
 	close(next)
 	wg.Wait()
